@@ -40,7 +40,9 @@ def find_primitives(prog, cls):
         if role is None or role in prims:
             raise AnalysisError("cannot classify SPI primitive %s" % f.qualname)
         prims[role] = f
-    if set(prims) != {"read1", "readn", "write1", "writen"}:
+    # every function that touches the bus is classified (checked above); a role may be missing when that access is expressed through
+    # another primitive (`_reg_read(r)` = `_reg_read_bytes(r, 1)[0]`): such a function is ordinary code and is simply interpreted
+    if not prims or not ({"read1", "readn"} & set(prims)) or not ({"write1", "writen"} & set(prims)):
         raise AnalysisError("SPI primitives of %s not found (got %s)" % (cls.qualname, sorted(prims)))
     return prims
 
@@ -65,19 +67,21 @@ def find_ce_field(prog, cls):
 
 def find_status_cache(prog, cls, prims):
     """('item', field, 0) for the full driver (MISO buffer) or ('field', name) for lite"""
-    f = prims["read1"]
+    order = [prims[r] for r in ("read1", "readn", "write1", "writen") if r in prims]
     # lite: self._status = in_buf[0]
-    for n in iter_own_nodes(f.node):
-        if isinstance(n, ast.Assign) and isinstance(n.targets[0], ast.Attribute) and isinstance(n.value, ast.Subscript):
-            if isinstance(n.value.slice, ast.Constant) and n.value.slice.value == 0:
-                return ("field", n.targets[0].attr)
+    for f in order:
+        for n in iter_own_nodes(f.node):
+            if isinstance(n, ast.Assign) and isinstance(n.targets[0], ast.Attribute) and isinstance(n.value, ast.Subscript):
+                if isinstance(n.value.slice, ast.Constant) and n.value.slice.value == 0:
+                    return ("field", n.targets[0].attr)
     # full: the in-buffer passed to write_readinto is a field of self
-    for n in iter_own_nodes(f.node):
-        if isinstance(n, ast.Call) and isinstance(n.func, ast.Attribute) and n.func.attr == "write_readinto" and len(n.args) >= 2:
-            b = n.args[1]
-            if isinstance(b, ast.Attribute) and isinstance(b.value, ast.Name) and b.value.id == "self":
-                return ("item", b.attr)
-    raise AnalysisError("STATUS cache not identified in %s" % f.qualname)
+    for f in order:
+        for n in iter_own_nodes(f.node):
+            if isinstance(n, ast.Call) and isinstance(n.func, ast.Attribute) and n.func.attr == "write_readinto" and len(n.args) >= 2:
+                b = n.args[1]
+                if isinstance(b, ast.Attribute) and isinstance(b.value, ast.Name) and b.value.id == "self":
+                    return ("item", b.attr)
+    raise AnalysisError("STATUS cache not identified in %s" % ", ".join(f.qualname for f in order))
 
 
 class Regs(dict):
@@ -184,6 +188,18 @@ class RadioModel(Model):
             if ln is None:
                 d = f.node.args.defaults
                 ln = Const(d[-1].value) if d and isinstance(d[-1], ast.Constant) else Unknown(ty="int")
+            if const_of(norm(ln)) == 1 and rc is not None and rc != regmap.R_RX_PAYLOAD and not (rc < 0x20 and rc in regmap.REGS and regmap.REGS[rc][1] > 1):
+                # a one-byte read spelled through the n-byte primitive (`_reg_read(r)` = `_reg_read_bytes(r, 1)[0]`): same transaction,
+                # same events and the same value as the one-byte primitive, wrapped in a 1-element buffer
+                if rc < 0x20 and rc in regmap.REGS:
+                    v = self.reg_get(st, rc)
+                    it.event(st, fr, "regread", node, (rc, v, txn))
+                    if rc == 7:
+                        v = sv
+                else:
+                    it.event(st, fr, "cmdread" if rc >= 0x20 else "regread", node, (reg, None, txn))
+                    v = sym_bits(lambda i: ("cmdresp", rc, txn, i), 8)
+                return [(st, st.alloc("bytearray", items=[v], label="read1#%d" % txn))]
             it.event(st, fr, "regreadn" if (rc is not None and rc < 0x20) else "cmdreadn", node, (reg, ln, txn))
             if rc is not None and rc < 0x20 and rc in regmap.REGS and regmap.REGS[rc][1] > 1:
                 cur = self.reg_get(st, rc)
@@ -197,6 +213,13 @@ class RadioModel(Model):
             return [(st, r)]
         if role == "writen":
             buf = a[1] if len(a) > 1 else None
+            if rc is not None and rc < 0x20 and rc in regmap.REGS and regmap.REGS[rc][1] == 1:
+                # a one-byte register written through the n-byte primitive: the same transaction as the one-byte primitive
+                items = it.seq_items(buf, st) if buf is not None else None
+                if items is not None and len(items) == 1:
+                    it.event(st, fr, "regwrite", node, (rc, items[0], txn))
+                    self.reg_set(st, rc, items[0])
+                    return [(st, Const(None))]
             kind = "regwriten" if (rc is not None and rc < 0x20) else "cmdwriten"
             it.event(st, fr, kind, node, (reg, buf, txn))
             if rc == 0x0A:
